@@ -109,3 +109,8 @@ pub fn shuffle<T>(v: &mut [T], rng: &mut impl RngCore) {
 pub fn subsets(n: usize) -> impl Iterator<Item = Vec<usize>> {
     (0u32..(1u32 << n)).map(move |m| (0..n).filter(|i| m & (1 << i) != 0).collect())
 }
+
+/// Byte values that text-oriented or C-string-oriented handling treats specially: NUL, newline,
+/// carriage return, space, quote, backslash, DEL, 0x80, 0xff. Values whose ENCODING ends (or
+/// starts) with one of these are searched for and used as edge samples.
+pub const SPECIAL_BYTES: [u8; 9] = [0x00, 0x0a, 0x0d, 0x20, 0x22, 0x5c, 0x7f, 0x80, 0xff];
